@@ -142,7 +142,39 @@ def check_object(obj, case) -> Optional[C.Failing]:
                                      f"{type(obj).__name__}: reader(stripped={sd}, failsafe={failsafe}) on {'stripped' if se else 'full'} document: {d[:200]}",
                                      case, d)
         if not isinstance(obj, model.Identifiable):
+            # a bare element through the XML single-element API (what the HTTP adapter does for level=core): first read in full,
+            # then stripped — a reader's mode is a function of the call, not of what was read before in the process
+            from basyx.aas.adapter.xml import read_aas_xml_element
+            from props import c04
+            data = c04.xml_bytes(obj)
+            for failsafe in (False, True):
+                full = read_aas_xml_element(io.BytesIO(data), c04.constructable(obj), failsafe=failsafe, stripped=False)
+                strp = read_aas_xml_element(io.BytesIO(data), c04.constructable(obj), failsafe=failsafe, stripped=True)
+                d = canon.diff(strip_canon(canon.canon(full)), canon.canon(strp))
+                if d:
+                    attrs = ".".join(__import__("re").findall(r"\.([a-z_]+)", d.split(":")[0])[-2:])
+                    return C.Failing(f"strip:xml:element:stripped-reader:{attrs}", f"{type(obj).__name__} failsafe={failsafe}: {d[:200]}", case, d)
+                d = canon.diff(canon.canon(obj), canon.canon(full))
+                if d:
+                    return C.Failing("strip:xml:element:full-reader-after-stripped", f"{type(obj).__name__} failsafe={failsafe}: {d[:200]}", case, d)
             return None
+        # the file-level JSON API: the mode parameters select the reader (no decoder class passed)
+        from basyx.aas.adapter.json import read_aas_json_file, object_store_to_json
+        st = model.DictObjectStore([obj])
+        for se in (False, True):
+            doc = object_store_to_json(st, stripped=se)
+            for sd in (False, True):
+                for failsafe in (False, True):
+                    got = list(read_aas_json_file(io.StringIO(doc), failsafe=failsafe, stripped=sd))
+                    if len(got) != 1:
+                        return C.Failing("strip:json:file-api:count", f"{len(got)} objects read (stripped={sd}, failsafe={failsafe})", case)
+                    exp = want if (se or sd) else canon.canon(obj)
+                    d = canon.diff(exp, canon.canon(got[0]))
+                    if d:
+                        attrs = ".".join(__import__("re").findall(r"\.([a-z_]+)", d.split(":")[0])[-2:])
+                        return C.Failing(f"strip:json:file-api:{'stripped' if sd else 'full'}-reader:{'stripped' if se else 'full'}-doc:{attrs}",
+                                         f"{type(obj).__name__}: read_aas_json_file(stripped={sd}, failsafe={failsafe}) on "
+                                         f"{'stripped' if se else 'full'} document: {d[:200]}", case, d)
         # XML: the stripped reader vs the full reader with the parts removed
         buf = io.BytesIO()
         write_aas_xml_file(buf, model.DictObjectStore([obj]))
